@@ -714,7 +714,7 @@ Theorem leader_commit_rule :
 Proof.
   intros opt fuel s s' out l Hl H LT.
   destruct fuel as [|f]; [discriminate|].
-  cbn [on_majority_commit] in H.
+  cbn [on_majority_commit] in H. refold opt H.
   apply obind_inv in H. destruct H as (l0 & Hl0 & H). apply get_ldr_inv in Hl0.
   assert (l0 = l) by congruence. subst l0.
   apply obind_inv in H. destruct H as (m & Hm & H).
@@ -722,9 +722,27 @@ Proof.
   - apply andb_true_iff in E. destruct E as [E1 E2]. apply N.ltb_lt in E1. apply N.leb_le in E2.
     exists m. split; [exact Hm|]. split; [exact E2|]. split; [exact E1|].
     assert (RR : R (commit_log s m) s').
-    { change s' with (fst (s', out)).
-      repeat (first [ use_r | match goal with H : leader_set_commit_index _ _ _ _ = Done _ |- _ => apply R_leader_set_commit_index in H end | inv1 ]);
-      rchain. }
+    { repeat (first [ use_r | match goal with H : leader_set_commit_index _ _ _ _ = Done _ |- _ => apply R_leader_set_commit_index in H end | inv1 ]);
+      cbn [fst] in *; subst; rchain. }
     destruct RR as (_ & F & _). unfold commit_log in F. cbn in F. lia.
   - unfold wret in H. inversion H; subst. lia.
 Qed.
+
+(* [follower_flush_before_success] without st_lastidx s = log_lastindex s: a state whose stored last
+   index lags behind its log (not reachable: restart recomputes it, every log operation updates it) *)
+Module StaleLastIndex.
+Definition e1 := mkEntry 1 1 entryNop [].
+Definition s0 : nstate := fresh_node 1 1 <| st_log := [e1] |>.
+Definition q0 := mkAppendReq 1 2 0 0 0 [e1].
+
+Theorem counterexample :
+  exists s', on_append_request false s0 q0 = Done (success, s') /\
+             st_log s' <> st_log s0 /\ st_flushed s' < log_lastindex s'.
+Proof.
+  assert (H : exists r, on_append_request false s0 q0 = Done r /\ fst r = success /\
+                        st_log (snd r) = [e1; e1] /\ st_flushed (snd r) = 1 /\ log_lastindex (snd r) = 2).
+  { vm_compute. eexists. split; [reflexivity|]. repeat split; reflexivity. }
+  destruct H as ([c s'] & H & C & L & F & LL). cbn [fst snd] in *. subst c.
+  exists s'. split; [exact H|]. rewrite L, F, LL. split; [discriminate | reflexivity].
+Qed.
+End StaleLastIndex.
